@@ -1,7 +1,8 @@
 import CwPlus.Model.Cw4Group
 import CwPlus.Lemmas.Snapshot
 import CwPlus.Lemmas.Cw4Group
-import CwPlus.Props.C20Listings
+import CwPlus.Lemmas.Paginate
+import CwPlus.Lemmas.Cw4GroupNodup
 /-!
 # C09 — cw4: totals and point-in-time weights always match the true history (cw4-group part)
 
@@ -730,6 +731,30 @@ theorem snapshot_consistent {msg : InstMsg} {h0 : Nat} {s0 : State} (hi : instan
     have hinv := run_inv (ops.filter (fun o => o.height < h)) (instantiate_inv hi)
     exact ⟨_, hinv.2.1, hinv.2.2, h1, h2⟩
 
+/-- What a client gets from one `ListMembers { start_after: c, limit }` call with a well-formed cursor
+(nothing if the query is rejected). -/
+def listPage (s : State) (limit : Option Nat) (c : Option Addr) : List (Addr × Nat) :=
+  match queryListMembers s (c.map (⟨true, ·⟩)) limit with
+  | .ok l => l
+  | .error _ => []
+
+open Paginate in
+theorem listPage_eq (s : State) (limit : Option Nat) (c : Option Addr) :
+    listPage s limit c = page strLt (sortedEntries strLt s.members.cur) c limit := by
+  cases c <;> simp [listPage, queryListMembers, check, bind, Except.bind, pure, Except.pure]
+
+open Paginate in
+/-- Paging through `ListMembers` (cursor = last address of the previous page) returns the whole sorted
+member table on every reachable state (the C20 statement, re-derived here from `Lemmas/Paginate`). -/
+theorem fetch_complete {msg : InstMsg} {h0 : Nat} {s0 : State} (hi : instantiate msg h0 = .ok s0)
+    (ops : List Op) (limit : Option Nat) (hl : limit ≠ some 0) {fuel : Nat}
+    (hf : (run s0 ops).members.cur.length + 1 ≤ fuel) :
+    fetchLoop (listPage (run s0 ops) limit) (·.1) none fuel = sortedEntries strLt (run s0 ops).members.cur := by
+  have := fetchLoop_sortedEntries strictTotal_strLt (run_nodup ops (instantiate_nodup hi)) hl
+    (q := listPage (run s0 ops) limit) (key := (·.1)) (f := id)
+    (fun c => by rw [listPage_eq, List.map_id]) (fun _ => rfl) hf
+  simpa using this
+
 open Paginate in
 /-- **C09 `total_eq_sum_members`, over the listing a client actually fetches**: after any accepted
 instantiation and any history, paging through `ListMembers` (any page size `limit ≠ 0`, cursor = last
@@ -738,9 +763,8 @@ theorem total_eq_sum_listed {msg : InstMsg} {h0 : Nat} {s0 : State} (hi : instan
     (ops : List Op) (limit : Option Nat) (hl : limit ≠ some 0) {fuel : Nat}
     (hf : (run s0 ops).members.cur.length + 1 ≤ fuel) :
     queryTotalWeight (run s0 ops) none =
-      AMap.sum (fetchLoop (fun c => Props.C20.okItems (queryListMembers (run s0 ops) (c.map (⟨true, ·⟩)) limit))
-        (·.1) none fuel) := by
-  rw [Props.C20Listings.group_listMembers_complete hi ops limit hl hf, listed_sum]
+      AMap.sum (fetchLoop (listPage (run s0 ops) limit) (·.1) none fuel) := by
+  rw [fetch_complete hi ops limit hl hf, listed_sum]
   exact (total_eq_sum_members hi ops).1
 
 open Paginate in
@@ -759,9 +783,8 @@ open Paginate in
 theorem fetched_vs_point {msg : InstMsg} {h0 : Nat} {s0 : State} (hi : instantiate msg h0 = .ok s0)
     (ops : List Op) (limit : Option Nat) (hl : limit ≠ some 0) {fuel : Nat}
     (hf : (run s0 ops).members.cur.length + 1 ≤ fuel) (a : Addr) (w : Nat) :
-    (a, w) ∈ fetchLoop (fun c => Props.C20.okItems (queryListMembers (run s0 ops) (c.map (⟨true, ·⟩)) limit))
-        (·.1) none fuel ↔ weight (run s0 ops) a = some w := by
-  rw [Props.C20Listings.group_listMembers_complete hi ops limit hl hf]
+    (a, w) ∈ fetchLoop (listPage (run s0 ops) limit) (·.1) none fuel ↔ weight (run s0 ops) a = some w := by
+  rw [fetch_complete hi ops limit hl hf]
   exact (listing_vs_point hi ops a w).1
 
 /-- non-vacuity on `exOps`: at height 13 the table is `{alice: 9, carol: 1}`, total 10 -/
